@@ -35,6 +35,8 @@ def check_case(item):
     if getattr(cat.CAT[fname], 'nondet', False):
         exp = cat.CAT[fname].ref(case) if cat.CAT[fname].ref else None
         return cat.compare(a, exp) or cat.compare(b, exp)
+    if a.get('ret') == b.get('ret') and a.get('ret') not in (0, None) and cat.CAT[fname].ret == 'err':
+        return None          # the call failed with the same error both times: output buffers are unspecified (C09 judges them)
     if a != b:
         diff = [k for k in a if a[k] != b.get(k)]
         return 'outputs depend on the prior content of caller-owned scratch/state/output memory (%s)' % diff
@@ -104,6 +106,7 @@ def run(tier):
 
 def replay(rec):
     global _cfg
+    corpora.load_all()
     _cfg = rec['cfg']
     if rec.get('kind') != 'case':
         return None
